@@ -553,3 +553,84 @@ MUTANTS += [
     {"name": "mime-specificity-positional-weights-summed", "expect": "R17.3", "edits": [(A, _MIME_SPEC, '        return (sum(2**i for i, x in enumerate(' + _SPLIT + ') if x != "*"),)')]},
     {"name": "mime-specificity-loop-keeps-only-concrete-parts", "expect": "R17.3", "edits": [(A, _MIME_SPEC, '        out = []\n        for part in ' + _SPLIT + ':\n            if part != "*":\n                out.append(True)\n        return tuple(out)')]},
 ]
+
+
+# ---- round 3 (held-out set 7-9): the q parameter taken out with a default instead of a membership test, the pair built
+# inside the append (conditional expression for the item), the default quality chosen by a conditional expression after
+# the pattern test, the pairs yielded by a nested generator ----
+_R3_HEAD = "    for item in parse_list_header(value):\n        item, options = parse_options_header(item)\n"
+_R3_CHECKS = (
+    "            q_str = q_str.strip()\n            if _q_value_re.fullmatch(q_str) is None:\n                continue\n"
+    "            q = float(q_str)\n            if q < 0 or q > 1:\n                continue\n"
+)
+_R3_APPEND = "        result.append((dump_options_header(item, options) if options else item, q))\n"
+_R3_POP_DEFAULT = _R3_HEAD + '        q_str = options.pop("q", None)\n        if q_str is None:\n            q = 1\n        else:\n' + _R3_CHECKS + _R3_APPEND
+_R3_GET_DEL = _R3_HEAD + '        q_str = options.get("q")\n        if q_str is None:\n            q = 1\n        else:\n            del options["q"]\n' + _R3_CHECKS.replace("is None:", "is None:").replace("if q < 0 or q > 1:", "if not 0 <= q <= 1:") + _R3_APPEND
+_R3_TRY_POP = (
+    _R3_HEAD + '        try:\n            q_str = options.pop("q")\n        except KeyError:\n            q = 1\n        else:\n' + _R3_CHECKS
+    + "        if options:\n            item = dump_options_header(item, options)\n        result.append((item, q))\n"
+)
+_R3_WALRUS_POP = _R3_HEAD + '        if (q_str := options.pop("q", None)) is None:\n            q = 1\n        else:\n' + _R3_CHECKS + _R3_APPEND
+_R3_ABSENT_APPENDS = (
+    _R3_HEAD + '        q_str = options.pop("q", None)\n        if q_str is None:\n            result.append((dump_options_header(item, options) if options else item, 1))\n            continue\n'
+    + _R3_CHECKS.replace("            ", "        ") + _R3_APPEND
+)
+_R3_CONDEXP_DEFAULT = (
+    _R3_HEAD + '        q_str = options.pop("q", None)\n        if q_str is not None:\n            q_str = q_str.strip()\n            if _q_value_re.fullmatch(q_str) is None:\n                continue\n'
+    "        q = 1 if q_str is None else float(q_str)\n        if q < 0 or q > 1:\n            continue\n" + _R3_APPEND
+)
+_R3_CONDEXP_FLAG = (
+    _R3_HEAD + '        q_str = options.pop("q", None)\n        has_q = q_str is not None\n        if has_q:\n            q_str = q_str.strip()\n            if _q_value_re.fullmatch(q_str) is None:\n                continue\n'
+    "        q = float(q_str) if q_str is not None else 1\n        if not 0 <= q <= 1:\n            continue\n" + _R3_APPEND
+)
+_R3_GEN = (
+    "    def pairs():\n" + "".join("    " + l + "\n" if l else "\n" for l in (_R3_POP_DEFAULT.replace(_R3_APPEND, "")).split("\n")[:-1])
+    + "            yield (dump_options_header(item, options) if options else item, q)\n\n"
+)
+_R3_GEN_TWO_YIELDS = (
+    "    def pairs(items):\n        for item in items:\n            item, options = parse_options_header(item)\n            if \"q\" not in options:\n"
+    "                yield (dump_options_header(item, options) if options else item), 1\n                continue\n            q_str = options.pop(\"q\").strip()\n"
+    "            if not _q_value_re.fullmatch(q_str):\n                continue\n            q = float(q_str)\n            if 0 <= q <= 1:\n"
+    "                pair = (dump_options_header(item, options) if options else item, q)\n                yield pair\n\n    result = list(pairs(parse_list_header(value)))\n"
+)
+TWINS += [
+    {"name": "q-popped-with-default-absent-branch-first-pair-in-append", "edits": [(H, _PAH_LOOP, _R3_POP_DEFAULT)]},
+    {"name": "q-read-with-get-then-deleted", "edits": [(H, _PAH_LOOP, _R3_GET_DEL)]},
+    {"name": "q-popped-in-try-keyerror-means-default", "edits": [(H, _PAH_LOOP, _R3_TRY_POP)]},
+    {"name": "q-popped-by-walrus-in-the-test", "edits": [(H, _PAH_LOOP, _R3_WALRUS_POP)]},
+    {"name": "q-absent-branch-appends-the-default-pair-itself", "edits": [(H, _PAH_LOOP, _R3_ABSENT_APPENDS)]},
+    {"name": "q-default-by-conditional-expression-after-the-pattern-test", "edits": [(H, _PAH_LOOP, _R3_CONDEXP_DEFAULT)]},
+    {"name": "q-default-by-conditional-expression-test-under-a-flag", "edits": [(H, _PAH_LOOP, _R3_CONDEXP_FLAG)]},
+    {"name": "pairs-yielded-by-nested-generator-collected-by-list", "edits": [(H, _PAH_LOOP, _R3_GEN + "    result = list(pairs())\n")]},
+    {"name": "pairs-yielded-by-nested-generator-extend", "edits": [(H, _PAH_LOOP, _R3_GEN + "    result.extend(pairs())\n")]},
+    {"name": "pairs-yielded-by-nested-generator-augmented-star", "edits": [(H, _PAH_LOOP, _R3_GEN + "    result += [*pairs()]\n")]},
+    {"name": "pairs-yielded-at-two-sites-generator-takes-the-items", "edits": [(H, _PAH_LOOP, _R3_GEN_TWO_YIELDS)]},
+]
+MUTANTS += [
+    {"name": "pop-default-absent-quality-half", "expect": "R17.1", "edits": [(H, _PAH_LOOP, _R3_POP_DEFAULT.replace("            q = 1\n", "            q = 0.5\n"))]},
+    {"name": "pop-default-pair-appended-only-when-q-truthy", "expect": "R17.1", "edits": [(H, _PAH_LOOP, _R3_POP_DEFAULT.replace(_R3_APPEND, "        if q:\n    " + _R3_APPEND))]},
+    {"name": "pop-default-upper-bound-two", "expect": "R17.1", "edits": [(H, _PAH_LOOP, _R3_POP_DEFAULT.replace("if q < 0 or q > 1:", "if q > 2 or q < 0:"))]},
+    {"name": "try-pop-malformed-q-falls-through", "expect": "R17.1", "edits": [(H, _PAH_LOOP, _R3_TRY_POP.replace("            if _q_value_re.fullmatch(q_str) is None:\n                continue\n", "            if _q_value_re.fullmatch(q_str) is None:\n                q_str = \"1\"\n"))]},
+    {"name": "absent-branch-appends-quality-zero", "expect": "R17.1", "edits": [(H, _PAH_LOOP, _R3_ABSENT_APPENDS.replace("else item, 1))", "else item, 0))"))]},
+    {"name": "condexp-default-pattern-test-under-unrelated-condition", "expect": "R17.1", "edits": [(H, _PAH_LOOP, _R3_CONDEXP_DEFAULT.replace("        if q_str is not None:\n", "        if q_str is not None and len(options) < 3:\n"))]},
+    {"name": "condexp-default-arms-condition-flipped", "expect": "R17.1", "edits": [(H, _PAH_LOOP, _R3_CONDEXP_DEFAULT.replace("q = 1 if q_str is None else float(q_str)", "q = 1 if q_str is not None else float(q_str)"))]},
+    {"name": "condexp-default-text-rebound-after-the-test", "expect": "R17.1", "edits": [(H, _PAH_LOOP, _R3_CONDEXP_DEFAULT.replace("            q_str = q_str.strip()\n            if _q_value_re.fullmatch(q_str) is None:\n                continue\n", "            if _q_value_re.fullmatch(q_str) is None:\n                continue\n            q_str = q_str.strip()\n"))]},
+    {"name": "condexp-flag-tests-the-wrong-outcome", "expect": "R17.1", "edits": [(H, _PAH_LOOP, _R3_CONDEXP_FLAG.replace("has_q = q_str is not None", "has_q = q_str is None"))]},
+    {"name": "generator-range-check-loses-upper-bound", "expect": "R17.1", "edits": [(H, _PAH_LOOP, _R3_GEN.replace("if q < 0 or q > 1:", "if q < 0:") + "    result = list(pairs())\n")]},
+    {"name": "generator-default-quality-zero", "expect": "R17.1", "edits": [(H, _PAH_LOOP, _R3_GEN.replace("q = 1\n", "q = 0\n") + "    result = list(pairs())\n")]},
+    {"name": "generator-second-yield-outside-the-range-test", "expect": "R17.1", "edits": [(H, _PAH_LOOP, _R3_GEN_TWO_YIELDS.replace("            if 0 <= q <= 1:\n                pair", "            if 0 <= q:\n                pair"))]},
+    {"name": "generator-collected-then-reversed", "expect": "R17.3", "edits": [(H, _PAH_LOOP, _R3_GEN + "    result.extend(pairs())\n    result.reverse()\n")]},
+]
+
+_R3_QHELPER_CONDEXP = (
+    "def _q_of(text):\n    if text is not None:\n        text = text.strip()\n        if not _q_value_re.fullmatch(text):\n            return None\n"
+    "    return 1 if text is None else float(text)\n\n\n"
+)
+_R3_QHELPER_LOOP = _R3_HEAD + '        q = _q_of(options.pop("q", None))\n        if q is None or q < 0 or q > 1:\n            continue\n' + _R3_APPEND
+TWINS += [
+    {"name": "q-helper-returns-default-or-conversion-by-conditional-expression", "edits": [(H, _OVERLOAD, _R3_QHELPER_CONDEXP + _OVERLOAD), (H, _PAH_LOOP, _R3_QHELPER_LOOP)]},
+]
+MUTANTS += [
+    {"name": "q-helper-condexp-caller-loses-upper-bound", "expect": "R17.1", "edits": [(H, _OVERLOAD, _R3_QHELPER_CONDEXP + _OVERLOAD), (H, _PAH_LOOP, _R3_QHELPER_LOOP.replace(" or q > 1", ""))]},
+    {"name": "q-helper-condexp-pattern-test-under-truthiness", "expect": "R17.1", "edits": [(H, _OVERLOAD, _R3_QHELPER_CONDEXP.replace("    if text is not None:\n", "    if text:\n") + _OVERLOAD), (H, _PAH_LOOP, _R3_QHELPER_LOOP)]},
+]
